@@ -119,8 +119,11 @@ class Check:
             seed = self.seed * 1000 + i
             tp = os.path.join(WORK, "camp_%s_%d_%d.trace" % (self.prop, os.getpid(), i))
             sp = tp + ".stats"
-            pr = subprocess.Popen([DRIVE_BIN, "--seed", str(seed), "--count", str(count), "--profile", profile,
-                                   "--out", tp, "--stats", sp, "--journal", tp + ".journal"],
+            # "<profile>@http": the same generator, but the library keeps its default network hooks (reqwest, its own
+            # JSON) and talks to the harness's scripted HTTP server on 127.0.0.1 (harness/src/http.rs)
+            prof_name, _, transport = profile.partition("@")
+            pr = subprocess.Popen([DRIVE_BIN, "--seed", str(seed), "--count", str(count), "--profile", prof_name,
+                                   "--out", tp, "--stats", sp, "--journal", tp + ".journal"] + (["--http"] if transport == "http" else []),
                                   stdout=subprocess.DEVNULL, stderr=subprocess.PIPE, env=ENV)
             procs.append((pr, tp, sp, profile, seed))
         for pr, tp, sp, profile, seed in procs:
@@ -336,13 +339,19 @@ class Check:
         monitors = set(self.cfg["monitors"])
         results = self.campaign()
         # if the model and the code disagree and nothing is rejected yet, search further (other seeds)
+        def relevant(x, label):
+            m = re.search(r"fields=(\S*)", x)
+            fs = set(m.group(1).split(",")) if m else set(fields)
+            if "@http" in label:
+                fs.discard("locks")          # no callbacks on the library's thread: its action log has no network entries
+            return fs & fields
+
         def quick_scan(res):
             d = j = 0
             for trace, out, stats, label in res:
                 diffs, jf, bads, st = verdicts(out)
                 for x in diffs:
-                    m = re.search(r"fields=(\S*)", x)
-                    if (set(m.group(1).split(",")) if m else fields) & fields:
+                    if relevant(x, label):
                         d += 1
                 j += len([y for y in jf if y["prop"] in monitors and y["side"] == "impl"])
             return d, j
@@ -357,7 +366,7 @@ class Check:
             self.seed = saved
             results += more
             d0, j0 = quick_scan(results)
-        hist = steps = 0
+        hist = steps = http_hist = 0
         rel_diffs, other_diffs, jfails = [], 0, []
         op_kinds, ret_kinds = {}, {}
         net_under_lock = panics = 0
@@ -367,13 +376,13 @@ class Check:
             diffs, jf, bads, st = verdicts(out)
             hist += st.get("hists", 0)
             steps += st.get("steps", 0)
+            if "@http" in label:
+                http_hist += st.get("hists", 0)
             blocks = None
             if bads:
                 self.problems.append(("infra", "driver could not parse harness output (%s): %s" % (label, bads[0][:300])))
             for d in diffs:
-                m = re.search(r"fields=(\S*)", d)
-                fs = set(m.group(1).split(",")) if m else fields
-                if fs & fields:
+                if relevant(d, label):
                     rel_diffs.append((d, label))
                 else:
                     other_diffs += 1
@@ -403,10 +412,12 @@ class Check:
             seen.add(sig)
             blocks = {block_id(b): b for b in split_blocks(trace)}
             b = blocks.get(j["hist"])
-            ops = shrink(b, j["prop"], max_rounds=60) if b else []
+            http = "@http" in label
+            ops = shrink(b, j["prop"], max_rounds=60, http=http) if b else []
             text = make_replay(b, ops) if b else ""
             path = self.save_replay("%s-%s.ops" % (self.prop, hashlib.sha1(sig.encode()).hexdigest()[:10]),
-                                    "# %s\n# replay: tools/replay.sh <this file>\n%s" % (j["why"], text))
+                                    "# %s\n%s# replay: tools/replay.sh <this file>\n%s"
+                                    % (j["why"], "# transport=http   (the library's default network hooks against the harness's scripted HTTP server)\n" if http else "", text))
             self.violations.append({"replay": path, "signature": sig, "why": j["why"]})
         if rel_diffs:
             d, label = rel_diffs[0]
@@ -454,6 +465,9 @@ class Check:
                    monitor_rejections=len(jfails), op_kinds=op_kinds, ret_kinds=ret_kinds,
                    net_calls_under_state_lock=net_under_lock, panics=panics,
                    compared_fields=sorted(fields), monitors=sorted(monitors))
+        if http_hist:
+            cov["transport"] = {"network_hooks": hist - http_hist, "real_http_on_loopback": http_hist,
+                                "note": "real_http: the library's default hooks (reqwest, handle_network_result, serde on the wire) against the harness's scripted HTTP/1.1 server; failures are enacted as status codes, resets, malformed and truncated bodies, stalls"}
         return cov
 
 
